@@ -6,7 +6,7 @@ from .. import scenario
 
 ID = "C20"
 LEVEL = "exploration"
-RULE = ("cases are directory trees (entries: regular file / directory with children / symlink to a file inside, "
+RULE = ("cases are directory trees (entries: regular file - with ordinary, read-only, no, read+execute or write-only permission bits - / directory with children / symlink to a file inside, "
         "to a file outside DIR, or dangling) over the property's name set (incl. names that are not valid UTF-8 and groups of siblings that differ only in letter case), with DIR itself named plainly or like a source file / a bytecode file / hidden / with a space / non-ASCII and spelled relative, ./relative, "
         "trailing slash, absolute or omitted; enumerated part = every 1- and 2-entry DIR over (name x kind); random part "
         "= Hypothesis trees with up to 8 entries and sub-directories. Non-trivial = DIR holds at least one regular "
@@ -22,7 +22,10 @@ NAMES = ["x.mmm", "y.mmm", "x.ms", "x.mmm.bak", "x.transpiled.mmm", ".mmm", "mmm
          "caf\udce9.mmm", "\udcff.mmm", "x.mmm\udce9", "caf\udce9.ms",
          # siblings that differ only in letter case / form one prefix of the other (entries must be handled one by one)
          "X.mmm", "Vector.mmm", "vector.mmm", "VECTOR.mmm", "x.mmm.mmm", "x"]
-KINDS = ["file", "dir", "ln_in", "ln_out", "ln_dangling"]
+KINDS = ["file", "dir", "ln_in", "ln_out", "ln_dangling", "file_ro", "file_none", "file_rx", "file_wo"]
+# permission bits of the FILE do not decide whether it can be deleted (the directory's do): read-only, inaccessible,
+# executable and write-only bytecode files are files like any other
+FILE_MODES = {"file_ro": 0o444, "file_none": 0o000, "file_rx": 0o555, "file_wo": 0o200}
 SPELL = ["rel", "dotrel", "slash", "abs", "omitted"]
 
 
@@ -41,11 +44,14 @@ def build(case):
              base + "/target_out.mmm": "outside-target", D + "/zz_target_in.txt": "inside-target"}
     dirs = [D]
     symlinks = {}
+    modes = {}
     must_remove, may_remove = [], []
     for name, kind, children in case["entries"]:
         p = D + "/" + name
-        if kind == "file":
+        if kind == "file" or kind in FILE_MODES:
             files[p] = "content of " + show(name)
+            if kind in FILE_MODES:
+                modes[p] = FILE_MODES[kind]
             if has_ext_mmm(name):
                 must_remove.append(p)
             elif name == ".mmm":
@@ -77,7 +83,7 @@ def build(case):
     else:
         argv = ["mscript", "clean"]
         cwd = D
-    sc = {"files": files, "dirs": dirs, "symlinks": symlinks, "cwd": cwd,
+    sc = {"files": files, "dirs": dirs, "symlinks": symlinks, "modes": modes, "cwd": cwd,
           "steps": [{"id": "clean", "argv": argv}],
           "asserts": [{"kind": "exit", "step": "clean", "in": ["ok"]},
                       {"kind": "c20_fs", "step": "clean", "must_remove": sorted(must_remove), "may_remove": sorted(may_remove)}]}
@@ -158,8 +164,8 @@ def canon(case):
 
 def nontrivial(case):
     top = case["entries"]
-    has_target = any(k == "file" and has_ext_mmm(n) for n, k, _ in top)
-    near = any((k == "file" and not has_ext_mmm(n)) or (k != "file" and has_ext_mmm(n)) or
+    has_target = any(k.startswith("file") and has_ext_mmm(n) for n, k, _ in top)
+    near = any((k.startswith("file") and not has_ext_mmm(n)) or (not k.startswith("file") and has_ext_mmm(n)) or
                (k == "dir" and any(has_ext_mmm(cn) for cn, _ in c)) for n, k, c in top)
     return has_target and near
 
